@@ -54,6 +54,21 @@ func specDoc(name string) map[string]interface{} {
 		}
 		return d
 	}
+	if name[0] == 'p' {
+		// a spec with a node the document gives as null (a node without a body): after its
+		// second message the machine parks there and stays, whatever arrives - in a crew
+		// rebuilt from a store as well
+		doc := `{"name":"` + name + `","nodes":{
+ "start":{"branching":{"type":"message","branches":[{"pattern":{"uid":"?u"},"target":"work"}]}},
+ "work":{"action":{"interpreter":"ecmascript","source":"var bs=_.bindings; bs.last=bs['?u']; delete bs['?u']; bs.n=(bs.n||0)+1; _.out({to:'nobody',from:'` + name + `',n:bs.n}); return bs;"},
+   "branching":{"branches":[{"pattern":{"n":2},"target":"parked"},{"target":"start"}]}},
+ "parked":null}}`
+		var d map[string]interface{}
+		if err := json.Unmarshal([]byte(doc), &d); err != nil {
+			panic(err)
+		}
+		return d
+	}
 	var a *ref.ASpec
 	if name[0] == 'c' {
 		// counter: counts every message it sees, remembers the last uid
@@ -267,6 +282,9 @@ func genHistory(r *rand.Rand, idx int) []op {
 		case 0, 1:
 			return fmt.Sprintf("counter-%d-%d", idx, specN)
 		case 2:
+			if r.Intn(2) == 0 {
+				return fmt.Sprintf("parking-%d-%d", idx, specN)
+			}
 			return fmt.Sprintf("guarded-%d-%d", idx, specN)
 		}
 		return fmt.Sprintf("recorder-%d-%d", idx, specN)
